@@ -89,7 +89,7 @@ pub fn check_stream(ls: &LangSet, code: &str, toks: &[IdTok], t: f64) -> (usize,
 pub fn run(ctx: &Ctx) -> Outcome {
     let n_texts = ctx.n(500_000, 10_000_000);
     let n_streams = ctx.n(250_000, 5_000_000);
-    let rep = run_sharded(ctx, |w, nw, rep| {
+    let mut rep = run_sharded(ctx, |w, nw, rep| {
         let ls = LangSet::new();
         let mut rng = Rng::derive(ctx.seed, "C02", w as u64);
         for i in 0..(n_texts / nw as u64) {
@@ -163,6 +163,9 @@ pub fn run(ctx: &Ctx) -> Outcome {
             }
         }
     });
+    if !ctx.quick() {
+        super::legs::fuzz_leg(ctx, &mut rep, 45);
+    }
     let rule = "text form: hostile texts (noise words joined by varied separators, multi-byte salt, mutated vocabulary, linking sentences, annotator-state texts, some 60 words long) at thresholds 0,3,10,inf,NaN: concat(tokens)==input, rewrite == harness-side splice of find_numbers on the same annotated tokens; texts over an alphabet that cannot spell a number (CJK, emoji, Cyrillic, Greek, punctuation, digits) returned identical with no occurrence; stream form: hinted IdTok streams through replace_numbers_in_stream, ids kept or handed to Replace::replace exactly once in order, one replacement per reported occurrence; non-trivial = every text (the equality is checked on all of them) / streams with at least one occurrence";
     finish(ctx, rep, rule, &["tokens come from the crate's own tokenizer exported by hook H1 (feature verif-hooks)"], vec![])
 }
